@@ -7,8 +7,8 @@ CONSTANTS
   MaxRestarts = 1
   MaxCycles = 1
   MaxLog = 12
-  KeyByCtx = FALSE
-  CompactByRef = FALSE
+  KeyByCtx = TRUE
+  CompactByRef = TRUE
   Panics = TRUE
   StopLast = TRUE
   StampSource = TRUE
